@@ -302,6 +302,8 @@ def run(P, R, tier):
     onceflag_rule(P, R)
     dumprange_rule(P, R)
     binkinds_rule(P, R)
+    precision_rule(P, R)
+    optelement_rule(P, R)
     # ------------------------------------------------------------------ C10.findopt
     R.rule("C10.findopt", "CParser::find_option: lower-cased token, exact match first, then first entry that begins with it", minimum=1)
     shape, desc = rawio.find_option_shape(P)
@@ -1117,3 +1119,86 @@ def binkinds_rule(P, R):
                 R.violation(RULE, inst, "%s (line %d) does not handle the bin member %s (%s): %s" % (g["q"], g["line"], nm, cls,
                             "the kind is missing from the text it writes (TRANSPORT -dump restart file, per-cell dumps)" if "dump" in g["q"] else "the kind is dropped when RAW text is read into a bin"),
                             file=g["file"], line=g["line"], function=g["q"])
+
+
+def precision_rule(P, R):
+    """"Any follow-up calculation gives the same results (relative 1e-7) on the restored state": RAW text carries doubles with the
+    precision of the stream, which is sticky and 6 digits by default.  Every dump_raw therefore sets s_oss.precision(DBL_DIG - 1) itself -
+    a selective DUMP (-mix n) may make any kind the first one written to a fresh stream - or is a nested writer that is only called from
+    dump_raw functions that have set it."""
+    from ..callgraph import CallGraph
+    RULE = "C10.precision"
+    R.rule(RULE, "every dump_raw sets the stream precision to at least 14 digits before it writes (nested writers: every caller has)", minimum=20)
+    cg = CallGraph(P)
+    fns = {k: g for k, g in P.functions.items() if g["q"].endswith("::dump_raw") and g["q"].startswith("cxx") and g.get("body")}
+    if len(fns) < 20:
+        R.anchor_missing(RULE, "only %d dump_raw functions" % len(fns))
+        return
+
+    def sets(g):
+        for c in T.calls(g["body"]):
+            if T.callee_name(c) == "precision" and c[4]:
+                a = T.strip_casts(c[4][0])
+                v = T.lit_value(a)
+                if v is None and T.is_node(a) and a[0] == "Bin" and a[2] == "-":
+                    l, r = T.lit_value(T.strip_casts(a[3])), T.lit_value(T.strip_casts(a[4]))
+                    v = l - r if l is not None and r is not None else None
+                if v is not None and v >= 14:
+                    return c[1]
+        return None
+    has = {k: sets(g) for k, g in fns.items()}
+    for k, g in sorted(fns.items(), key=lambda kv: (kv[1]["q"], kv[1]["line"])):
+        inst = "%s@%d" % (g["q"].split("::")[0], g["line"])
+        if has[k]:
+            R.ok(RULE, inst, "precision set at line %d" % has[k])
+            continue
+        callers = cg.callers.get(k, set())
+        if callers and all(c in fns and has[c] for c in callers):
+            R.ok(RULE, inst, "nested writer: called only from %s, which set the precision" % ", ".join(sorted(P.functions[c]["q"] for c in callers)))
+        else:
+            R.violation(RULE, inst, "%s writes doubles without setting the stream precision and is not only called from writers that set it: when this kind is the first one written to a "
+                        "fresh dump stream (selective DUMP) its numbers carry 6 digits and the restored state differs by 1e-6" % g["q"], file=g["file"], line=g["line"], function=g["q"])
+
+
+OPTELEMENT_EXEMPT = {
+    ("cxxPPassemblageComp", "si"): "`totals` of a pure-phase component is work space of totalize(), which list_components and the saver run on copies: it is empty in every stored entity that was dumped in the replays (EQUILIBRIUM_PHASES with Quartz: `-totals` followed by no line); not reproduced",
+    ("cxxSS", "p"): "`totals` of a solid solution is work space of totalize() as for pure phases; empty in stored entities; not reproduced",
+}
+_ELEMENT_SYMBOLS = ("H He Li Be B C N O F Ne Na Mg Al Si P S Cl Ar K Ca Sc Ti V Cr Mn Fe Co Ni Cu Zn Ga Ge As Se Br Kr Rb Sr Y Zr Nb Mo Tc Ru Rh Pd Ag Cd In Sn Sb Te I Xe Cs Ba "
+                    "La Ce Pr Nd Pm Sm Eu Gd Tb Dy Ho Er Tm Yb Lu Hf Ta W Re Os Ir Pt Au Hg Tl Pb Bi Po At Rn Fr Ra Ac Th Pa U Np Pu Am Cm").split()
+
+
+def optelement_rule(P, R):
+    """RAW text writes an element list (cxxNameDouble) as lines `<Element> <moles>` without a dash after the option that opens the list, and
+    every reader first looks a line up in its own option table - exact, but case-insensitive.  An option word that is also an element
+    symbol (la / La, si / Si, p / P) therefore swallows that element's line unless the reader tells them apart (an option found on a line
+    is rewritten in lower case, an element starts with a capital: the guard calls isupper).  For every reader that reads an element list:
+    option words that are element symbols need the guard or a row in the exemption table."""
+    RULE = "C10.optelement"
+    R.rule(RULE, "no RAW reader takes the line of an element in a -totals list for one of its own options (la / La, si / Si, p / P)", minimum=4)
+    low = {e.lower(): e for e in _ELEMENT_SYMBOLS}
+    tabs = rawio.vopts_tables(P)
+    n = 0
+    for cls, t in sorted(tabs.items()):
+        col = [o for o in t["words"] if o and o.lower() in low]
+        if not col:
+            continue
+        fs = [f for f in P.fns_named(cls + "::read_raw") if f.get("body")]
+        if not fs:
+            continue
+        g = fs[0]
+        lists = [c for c in T.calls(g["body"]) if (T.callee_q(c) or "") == "cxxNameDouble::read_raw"]
+        for o in col:
+            n += 1
+            inst = "%s:%s" % (cls, o)
+            if not lists:
+                R.ok(RULE, inst, "reader has no element list")
+            elif any(T.callee_name(c) == "isupper" for c in T.calls(g["body"])):
+                R.ok(RULE, inst, "reader tells the element %s from the option -%s by its capital letter" % (low[o.lower()], o))
+            elif (cls, o) in OPTELEMENT_EXEMPT:
+                R.ok(RULE, inst, "exempt: " + OPTELEMENT_EXEMPT[(cls, o)])
+            else:
+                R.violation(RULE, inst, "%s::read_raw reads an element list and has the option `%s`: the line `%s <moles>` of the list is taken for the option, the element's total is lost "
+                            "when RAW text is read back" % (cls, o, low[o.lower()]), file=g["file"], line=g["line"], function=g["q"])
+    if n < 4:
+        R.anchor_missing(RULE, "only %d option words coincide with element symbols" % n)
